@@ -85,6 +85,16 @@ func totpGen(c c02Case, key []byte) (obs, bad string) {
 	d, a, per := c.Digits, c.Algo, c.Period
 	if c.Nil {
 		d, a, per = 6, 0, 30
+		if c.AppDef {
+			d, a, per = 8, 2, 60 // nil means the TOTP default as the application has assigned it (see above)
+		}
+	}
+	if !ref.HOTPSupported(d, a) {
+		// TOTP is HOTP at the step: an unsupported code length or hash is answered with an error, never with a code
+		if err == nil || code != "" {
+			return obs, "unsupported digits/hash must give (\"\", error), as HOTP does for the same Param"
+		}
+		return obs, ""
 	}
 	want := ref.HOTP(key, ref.Step(c.Unix, per), d, a)
 	if err != nil || code != want {
@@ -168,6 +178,31 @@ func c02(r *ev.Run) {
 			for a := 0; a < 3; a++ {
 				cs = append(cs, c02Case{Secret: sp, Unix: 1111111109, Period: per, Digits: 6 + 2*(a%2), Algo: a, AppDef: true})
 			}
+		}
+		for _, t := range []int64{59, 1111111109, 1 << 40} {
+			cs = append(cs, c02Case{Secret: sp, Unix: t, Nil: true, AppDef: true})
+		}
+		// every unsupported code length and a few unsupported hashes, with every kind of period
+		for _, d := range []int{0, 11, 12, 16, 22, 38, 64, 128, 200, 255} {
+			cs = append(cs, c02Case{Secret: sp, Unix: 1111111109, Period: []uint64{30, 0, 60, 1}[d%4], Digits: d, Algo: d % 3})
+		}
+		if !ReplayOnly {
+			for d := 0; d <= 255; d++ {
+				if d >= 1 && d <= 10 {
+					continue
+				}
+				for a := 0; a < 3; a++ {
+					c := c02Case{Secret: sp, Unix: 1111111109, Period: []uint64{30, 0, 60, 1}[d%4], Digits: d, Algo: a}
+					_, key := ref.B32Classify(c.Secret)
+					if obs, bad := totpGen(c, key); bad != "" {
+						r.Fail("totp-generate", fmt.Sprintf("unsupported digits=%d algo=%d: %s", d, a, bad), c, bad, obs)
+					}
+				}
+			}
+			r.Eval(246 * 3)
+		}
+		for _, a := range []int{3, 4, 99, 255} {
+			cs = append(cs, c02Case{Secret: sp, Unix: 59, Period: 30, Digits: 6, Algo: a}, c02Case{Secret: sp, Unix: 59, Period: 0, Digits: 0, Algo: a})
 		}
 		afterWarmups(r, "totp-generate-after-other-operations", cs, func(c c02Case) (string, string) { _, key := ref.B32Classify(c.Secret); return totpGen(c, key) })
 	}
